@@ -26,9 +26,9 @@ fn enum_opts(tier: &str) -> (crate::sem_enum::EOpts, Option<usize>) {
 }
 fn flat_opts(tier: &str) -> (crate::sem_flat::FlatOpts, Option<usize>) {
     if tier == "quick" {
-        (crate::sem_flat::FlatOpts { max_members: 3, max_ghosts: 1, max_depth: 2 }, Some(5))
+        (crate::sem_flat::FlatOpts { max_members: 3, max_ghosts: 1, max_depth: 2, positional: false }, Some(5))
     } else {
-        (crate::sem_flat::FlatOpts { max_members: 4, max_ghosts: 1, max_depth: 3 }, Some(7))
+        (crate::sem_flat::FlatOpts { max_members: 4, max_ghosts: 1, max_depth: 3, positional: false }, Some(7))
     }
 }
 
@@ -66,6 +66,11 @@ pub fn collect(tier: &str, caps: &Caps, rep: &Report) -> Vec<BItem> {
     let (fo, fb) = flat_opts(tier);
     let st = explore(|ctx| crate::sem_flat::gen_child(ctx, &fo), fb, caps, |ch, c| items.lock().unwrap().push(BItem { space: "flat".into(), choices: ch.to_vec(), tags: c.tags.clone(), inputs: vec![c.item("S", true).render()], module: flat_module(&c), nontrivial: true }));
     rep.add_stats("flat", &fb.map(|b| format!("dev({})", b)).unwrap_or("full".into()), &st);
+    let (mut fo, fb) = flat_opts(tier);
+    fo.positional = true;
+    let fb = fb.map(|b| b - 1);
+    let st = explore(|ctx| crate::sem_flat::gen_child(ctx, &fo), fb, caps, |ch, c| items.lock().unwrap().push(BItem { space: "flat-pos".into(), choices: ch.to_vec(), tags: c.tags.clone(), inputs: vec![c.item("S", true).render()], module: flat_module(&c), nontrivial: true }));
+    rep.add_stats("flat-pos", &fb.map(|b| format!("dev({})", b)).unwrap_or("full".into()), &st);
     let st = explore(gen_raise, None, caps, |ch, (n, raising, named)| {
         let (module, item) = raise_module(n, &raising, named);
         items.lock().unwrap().push(BItem { space: "raise".into(), choices: ch.to_vec(), tags: vec![format!("n={}", n), format!("named={}", named), format!("raising={:?}", raising)], inputs: vec![item], module, nontrivial: true });
@@ -113,11 +118,12 @@ pub fn replay(f: &Failure) -> i32 {
                         }
                     }
                 }
-                "flat" => {
-                    let (o, _) = flat_opts(t);
+                "flat" | "flat-pos" => {
+                    let (mut o, _) = flat_opts(t);
+                    o.positional = f.space == "flat-pos";
                     if let (Some(c), full) = replay_one(|ctx| crate::sem_flat::gen_child(ctx, &o), &f.choices) {
                         if full == f.choices && c.item("S", true).render() == f.input {
-                            item = Some(BItem { space: "flat".into(), choices: full, tags: c.tags.clone(), inputs: vec![f.input.clone()], module: flat_module(&c), nontrivial: true });
+                            item = Some(BItem { space: f.space.clone(), choices: full, tags: c.tags.clone(), inputs: vec![f.input.clone()], module: flat_module(&c), nontrivial: true });
                         }
                     }
                 }
